@@ -1975,3 +1975,12 @@ MA('C01', 'copy of a Fortran-ordered discretized element re-wraps its tensor',
 MA('C01', 'in-place broadcasting updates the aliased part last and returns the parts in that order',
    'odl/space/pspace.py', '_broadcast_arithmetic._broadcast_arithmetic_impl',
    'other = other.copy()', 'pass', 'operand: part 0')
+MA('C16', 'cell sides compared only on resized axes',
+   'odl/discr/discr_ops.py', 'ResizingOperator.__init__',
+   'if ran.is_uniform_byaxis[i] and domain.is_uniform_byaxis[i] and (not np.isclose(ran.cell_sides[i], domain.cell_sides[i])):...',
+   'if ran.shape[i] != domain.shape[i] and not np.isclose(ran.cell_sides[i], domain.cell_sides[i]):\n    raise ValueError("cell sides differ")',
+   'R4c')
+MA('C03', 'operator sum accumulates into the result of its left summand',
+   'odl/operator/operator.py', 'OperatorSum._call',
+   'return self.left(x) + self.right(x)',
+   'out = self.left(x)\nout += self.right(x)\nreturn out', 'RealPart')
